@@ -195,6 +195,7 @@ func (c *IClient) Create(ctx context.Context, obj client.Object, opts ...client.
 	if err != nil {
 		return err
 	}
+	c.mu.Lock() // creates may come from fan-out goroutines: the name / UID sequence is shared
 	if obj.GetName() == "" && obj.GetGenerateName() != "" {
 		c.w.uidSeq++
 		obj.SetName(fmt.Sprintf("%s%03d", obj.GetGenerateName(), c.w.uidSeq))
@@ -202,6 +203,7 @@ func (c *IClient) Create(ctx context.Context, obj client.Object, opts ...client.
 	if obj.GetUID() == "" {
 		obj.SetUID(c.w.NextUID(strings.ToLower(kindOf(obj))))
 	}
+	c.mu.Unlock()
 	if ct := obj.GetCreationTimestamp(); ct.IsZero() {
 		obj.SetCreationTimestamp(metaTime(c.w.Clock.Now()))
 	}
